@@ -43,6 +43,8 @@ module Nat :
   val div : nat -> nat -> nat
  end
 
+val hd_error : 'a1 list -> 'a1 option
+
 val tl : 'a1 list -> 'a1 list
 
 val nth : nat -> 'a1 list -> 'a1 -> 'a1
@@ -70,6 +72,10 @@ type positive =
 | XO of positive
 | XH
 
+type n =
+| N0
+| Npos of positive
+
 type z =
 | Z0
 | Zpos of positive
@@ -85,6 +91,8 @@ module Pos :
 
   val pred_double : positive -> positive
 
+  val pred_N : positive -> n
+
   val mul : positive -> positive -> positive
 
   val compare_cont : comparison -> positive -> positive -> comparison
@@ -92,6 +100,31 @@ module Pos :
   val compare : positive -> positive -> comparison
 
   val eqb : positive -> positive -> bool
+
+  val coq_Nsucc_double : n -> n
+
+  val coq_Ndouble : n -> n
+
+  val coq_lor : positive -> positive -> positive
+
+  val coq_land : positive -> positive -> n
+
+  val ldiff : positive -> positive -> n
+
+  val iter_op : ('a1 -> 'a1 -> 'a1) -> positive -> 'a1 -> 'a1
+
+  val to_nat : positive -> nat
+
+  val of_succ_nat : nat -> positive
+ end
+
+module N :
+ sig
+  val succ_pos : n -> positive
+
+  val coq_lor : n -> n -> n
+
+  val ldiff : n -> n -> n
  end
 
 module Z :
@@ -124,6 +157,12 @@ module Z :
 
   val eqb : z -> z -> bool
 
+  val to_nat : z -> nat
+
+  val of_nat : nat -> z
+
+  val of_N : n -> z
+
   val pos_div_eucl : positive -> z -> z * z
 
   val div_eucl : z -> z -> z * z
@@ -131,6 +170,8 @@ module Z :
   val div : z -> z -> z
 
   val modulo : z -> z -> z
+
+  val coq_land : z -> z -> z
  end
 
 type enc =
@@ -616,3 +657,90 @@ val cfg_save : cstate -> bytes0 list
 val cfg_non_default : cstate -> nat
 
 val cfg_set_option : cstate -> bytes0 -> bytes0 -> cstate * diag list
+
+type sym =
+| NL
+| Ch of z
+| Raw of z
+| Seg of z list
+
+type ropts = { indent_with_tabs : z; pp_indent_with_tabs : z;
+               output_tab_size : z; align_with_tabs : bool;
+               align_keep_tabs : bool; sp_before_nl_cont : z;
+               force_tab_after_define : bool;
+               cmt_convert_tab_to_spaces : bool; in_preproc_at_output : 
+               bool }
+
+type wstate = { column : z; spaces0 : z; last_char : z; did_newline : 
+                bool; trailspace : bool; tab_as_space : bool; out0 : 
+                sym list }
+
+val next_tab_column : ropts -> z -> z
+
+val emit : wstate -> sym -> wstate
+
+val add_spaces : wstate -> wstate
+
+val newline_state : wstate -> sym list -> wstate
+
+val set_last : wstate -> z -> wstate
+
+val cr_fixup : wstate -> z -> wstate
+
+val add_char1 : ropts -> wstate -> z -> wstate
+
+val space_n : ropts -> wstate -> nat -> wstate
+
+val eff_iwt : ropts -> z
+
+val add_char : ropts -> wstate -> z -> bool -> wstate
+
+val add_text : ropts -> wstate -> z list -> bool -> wstate
+
+val add_raw : wstate -> z list -> wstate
+
+val set_did_newline : wstate -> bool -> wstate
+
+val tabs_loop : ropts -> nat -> wstate -> z -> wstate
+
+val output_to_column : ropts -> wstate -> z -> bool -> wstate
+
+type ckind =
+| CKNewline
+| CKNlCont
+| CKComment
+| CKIgnored
+| CKOther
+| CKSkipped
+
+type chunk = { ck : ckind; text : z list; col : z; col_indent : z;
+               nl_count : z; nl_col : z; orig_col : z; orig_prev_sp : 
+               z; preproc : bool; was_aligned : bool; after_tab : bool;
+               lvl_hack : bool; is_pp_define : bool; is_string : bool;
+               is_string_multi : bool; is_pp_ignore : bool;
+               is_comment_kind : bool; seg : z list; seg_column : z;
+               seg_spaces : z; seg_last : z; seg_did_nl : bool }
+
+val ppiwt : ropts -> z
+
+val set_flags : wstate -> bool -> bool -> wstate
+
+val after_newline : wstate -> wstate
+
+val newline_loop : ropts -> nat -> bool -> chunk -> wstate -> wstate
+
+val nlcont_prev : chunk list -> chunk option
+
+val render_nlcont : ropts -> chunk list -> chunk -> wstate -> wstate
+
+val render_other : ropts -> chunk option -> chunk -> wstate -> wstate
+
+val render_chunk : ropts -> chunk list -> chunk -> wstate -> wstate
+
+val render_loop : ropts -> chunk list -> chunk list -> wstate -> wstate
+
+val init_wstate : z -> z -> wstate
+
+val render : ropts -> z -> z -> chunk list -> sym list
+
+val realise : z list -> sym list -> z list
